@@ -184,13 +184,18 @@ def loop (cfg : Cfg) (crit : List WI) : Nat â†’ List Nat â†’ List Int â†’ Nat â†
         | .found (w, id) =>
           if imb â‰¤ w || w == 0 then .ok ids cnt
           else if id < ids.length then                 -- `partition[id] = underweight_part`
-            match csub cfg lo w with                   -- `part_loads[over] - nearest_weight`
+            match csub cfg lo w with                   -- `new_overweight_load = part_loads[over] - w`
             | none => .abort
             | some lo' =>
-              let pl1 := pl.set o lo'
-              match pl1[u]? with                       -- `part_loads[under] += nearest_weight`
+              match pl[u]? with                        -- `new_underweight_load = part_loads[under]`
               | none => .abort
-              | some lu1 => loop cfg crit fuel (ids.set id u) (pl1.set u (lu1 + w)) (cnt + 1)
+              | some lu0 =>
+                let nu := lu0 + w                      -- `new_underweight_load += nearest_weight`
+                -- guard of commit bff6050 (N9): both new loads strictly below the current maximum
+                -- `part_loads[over]` (= `lo`), else `break`.  On exact weights it always passes
+                -- here (`guard_vacuous_int`); it exists for rounded floating-point loads.
+                if !(decide (lo' < lo) && decide (nu < lo)) then .ok ids cnt
+                else loop cfg crit fuel (ids.set id u) ((pl.set o lo').set u nu) (cnt + 1)
           else .abort
     | _, _ => .abort                                   -- `.into_option().unwrap()`
 
